@@ -41,7 +41,10 @@ def ref_map_coordinates(arr, coords):
         for d, b in enumerate(corner):
             w = w * (ws[d] if b else (1 - ws[d]))
             idx.append(lows[d] + b)
-        out = out + w * arr[tuple(idx)]
+        # a corner with weight exactly 0 does not contribute (also when its entry is infinite:
+        # "interpolating at integer coordinates returns the array entries")
+        with np.errstate(invalid="ignore"):
+            out = out + np.where(w == 0, 0.0, w * arr[tuple(idx)])
     return out
 
 
@@ -257,7 +260,8 @@ class Ref:
             for d, b in enumerate(corner):
                 w = w * (ws[d] if b else (1 - ws[d]))
                 cidx.append(lows[d] + b)
-            out = out + w * Vfull[tuple(idx + cidx)]
+            with np.errstate(invalid="ignore"):
+                out = out + np.where(w == 0, 0.0, w * Vfull[tuple(idx + cidx)])
         return np.broadcast_to(out, shape), bad, idx[: len(self.sparse_states)]
 
     def q_on(self, env, period, params, Vnext_full, feas_next=None):
@@ -373,6 +377,7 @@ class Ref:
                 "no_choice": bool((in_space & ~has_choice).any()),
                 "nan_q": nanq,
                 "nonfinite_v": bool((~np.isfinite(V[in_space])).any()),
+                "only_neg_inf_v": bool(np.all(np.isfinite(V[in_space]) | np.isneginf(V[in_space]))),
                 "binding": binding,
                 "n_in_space": int(in_space.sum()),
                 "empty_space": bool(fs is not None and not fs.any()),
@@ -383,7 +388,7 @@ class Ref:
             V_next, feas_next = V, fs
         return {"V": Vs, "Q": Qs, "info": info}
 
-    def supported(self, sol, allow_no_choice_last=False):
+    def supported(self, sol, allow_no_choice_last=False, allow_neg_inf_values=False):
         """Screening: the model is in the scope of the properties (DESIGN 4.3)."""
         reasons = []
         for t, i in enumerate(sol["info"]):
@@ -395,7 +400,7 @@ class Ref:
                 reasons.append(f"t{t}:nan_at_feasible_choice")
             if i["no_choice"] and not (allow_no_choice_last and t == self.T - 1):
                 reasons.append(f"t{t}:state_without_feasible_choice")
-            elif i["nonfinite_v"] and not (allow_no_choice_last and t == self.T - 1):
+            elif i["nonfinite_v"] and not (allow_no_choice_last and t == self.T - 1) and not (allow_neg_inf_values and i["only_neg_inf_v"]):
                 reasons.append(f"t{t}:nonfinite_value")
         return (not reasons), reasons
 
